@@ -2,6 +2,7 @@ package main
 
 import (
 	"fmt"
+	"sort"
 	"strings"
 
 	"github.com/mmcloughlin/avo/build"
@@ -96,4 +97,103 @@ func collectionFile(c *Ctx) {
 			o.Plan.GoViolations = append(o.Plan.GoViolations, GoViolation{Key: "collection:index-wrap", Desc: fmt.Sprintf("case %d: the 65537th general-purpose register drawn from a collection has the ID of the first (%d)", idx, uint64(first.ID())), Replay: map[string]any{"draws": 65537}})
 		}
 	}
+}
+
+// maskSetFile: the byte-mask set operations of reg/set.go on sets over register views that alias (the same
+// register at several widths, high and low bytes, vector widths), against Model/MaskSetOps.v.  The inputs
+// are map literals; the results are read entry by entry.
+func maskSetFile(c *Ctx) {
+	o := c.Out
+	rng := NewRNG(c.Seed + 2021)
+	n := 400
+	if c.Thorough() {
+		n = 8000
+	}
+	coll := reg.NewCollection()
+	v1, v2 := coll.GP64(), coll.GP64()
+	x1 := coll.ZMM()
+	views := []reg.Register{
+		reg.AL, reg.AH, reg.AX, reg.EAX, reg.RAX, reg.CL, reg.CH, reg.CX, reg.ECX, reg.RCX, reg.R9B, reg.R9W, reg.R9L, reg.R9,
+		reg.X3, reg.Y3, reg.Z3, reg.X17, reg.Z17, reg.K1, reg.K2,
+		v1, v1.As32(), v1.As16(), v1.As8L(), v1.As8H(), v2, v2.As8L(), v2.As16(), x1, x1.AsX(), x1.AsY(),
+	}
+	pairs := func(s reg.MaskSet) string {
+		var l [][2]uint64
+		for id, m := range s {
+			l = append(l, [2]uint64{uint64(id), uint64(m)})
+		}
+		sort.Slice(l, func(i, j int) bool { return l[i][0] < l[j][0] })
+		return cPairs(l)
+	}
+	text := func(s reg.MaskSet) string {
+		var ss []string
+		for id, m := range s {
+			ss = append(ss, fmt.Sprintf("%d:%#x", uint64(id), uint64(m)))
+		}
+		sort.Strings(ss)
+		return "{" + strings.Join(ss, " ") + "}"
+	}
+	randSet := func() reg.MaskSet {
+		s := reg.MaskSet{}
+		for k := 0; k < rng.Intn(6); k++ {
+			r := Pick(rng, views)
+			s[r.ID()] |= r.Mask()
+		}
+		return s
+	}
+	var rows []string
+	for j := 0; j < n; j++ {
+		s, t := randSet(), randSet()
+		if rng.Chance(50) && len(s) > 0 { // make the sets meet on a register at different widths
+			for id := range s {
+				t[id] |= Pick(rng, []uint16{0x1, 0x2, 0x3, 0xf, 0xff})
+				break
+			}
+		}
+		sIn, tIn := pairs(s), pairs(t)
+		op := rng.Intn(4)
+		var res reg.MaskSet
+		chg := false
+		name := ""
+		switch op {
+		case 0:
+			name = "Difference"
+			res = s.Difference(t)
+		case 1:
+			name = "DifferenceUpdate"
+			res = reg.MaskSet{}
+			for id, m := range s {
+				res[id] = m
+			}
+			chg = res.DifferenceUpdate(t)
+		case 2:
+			name = "Update"
+			res = reg.MaskSet{}
+			for id, m := range s {
+				res[id] = m
+			}
+			chg = res.Update(t)
+		default:
+			name = "NewMaskSetFromRegisters"
+			var rs []reg.Register
+			var tl [][2]uint64
+			for k := 0; k < 1+rng.Intn(6); k++ {
+				r := Pick(rng, views)
+				rs = append(rs, r)
+				tl = append(tl, [2]uint64{uint64(r.ID()), uint64(r.Mask())})
+			}
+			res = reg.NewMaskSetFromRegisters(rs)
+			sIn, tIn = "[]", cPairs(tl)
+		}
+		o.Plan.Cases = append(o.Plan.Cases, Case{Index: 9000000 + j, Key: "maskset:" + name, Desc: fmt.Sprintf("%s: s=%s t=%s -> %s changed=%v", name, sIn, tIn, text(res), chg), Input: map[string]any{"op": name, "s": sIn, "t": tIn}, Nontrivial: true})
+		rows = append(rows, fmt.Sprintf("(%d, %s, %s, %s, %s)", op, sIn, tIn, pairs(res), cBool(chg)))
+	}
+	var b strings.Builder
+	b.WriteString("From Avo Require Import Base.Prelude Model.IR Model.Obs Model.MaskSetOps.\nOpen Scope N_scope.\n")
+	fmt.Fprintf(&b, "Definition cases : list msop_case := %s.\n", cListNL(rows))
+	b.WriteString("Definition R_maskset_violation := Eval vm_compute in List.map (N.add 9000000) (indices_where_ (fun c => negb (msop_ok c)) cases).\nPrint R_maskset_violation.\n")
+	o.WriteFile("MaskSet.v", b.String())
+	o.Stage("MaskSet.v")
+	o.ExpectEmpty("MaskSet.v", "R_maskset_violation", "violation", "a set operation on register byte masks differs from the bytewise set algebra (e.g. a live wide view minus a written narrow view must keep the remaining bytes)")
+	o.Plan.Stats["maskset_operations"] = n
 }
